@@ -29,6 +29,7 @@ RULE = (
     "are first handed to another operation (a join whose fixed operand supplies some of their columns), as a user "
     "reusing a predicate object would; equal predicates share one object within a case.  The new operation may be a "
     "user-defined RowFilter / Reordering too (whatever commute() they inherit is judged like any other). "
+    "  Rows of a fixed join operand are read from the leaf object the reported operation actually holds (leaves may share a name and compare equal while holding different rows). "
 )
 ASSUMPTIONS = [
     "interpreter vmon/interp.py (full-row deduplication; witness rows satisfy the key functional dependency)",
